@@ -147,6 +147,13 @@ def w_sigma(acc, L, prefix, pair_lo, pair_hi):
             acc.run("triple", o_triple, {"pair": p, "x": x}, True)
 
 
+def w_large(acc, n, pair):
+    """Size boundaries: X = the size-scaled families (deep nesting, thousands of lines / fields / openers)."""
+    for name, x in splitinputs.scaled_families(n):
+        acc.run("triple", o_triple, {"pair": pair, "x": x}, True)
+    acc.classes["large-x"] += 1
+
+
 def w_truncations(acc):
     blocks = ["@article{k9,\n  title = {A {B} c},\n  author = \"X and Y\",\n  year = 2000,\n}", "@string{s9 = \"str\" # {x}}", "@preamble{pre {x} y}", "@comment{a {b} c}",
               "@a{k9, t = \"q {\"} r\", u = {v}}"]
@@ -193,6 +200,7 @@ def run(chk):
                 tasks.append(("w_sigma", t + (lo, min(np, lo + 4))))
         else:
             tasks.append(("w_sigma", t + (0, np)))
+    tasks += [("w_large", (n, p)) for n in ((130, 1100) if quick else (130, 1100, 5000)) for p in ((0, 1, 4, 9) if quick else range(np))]
     n_rand = 8000 if quick else 200000
     shards = 16 if quick else 64
     for s in range(shards):
